@@ -343,6 +343,11 @@ func getBlocks(ctx context.Context, ks []cid.Cid, blockservice BlockService, fet
 		for _, c := range ks {
 			hit, err := bs.Get(ctx, c)
 			if err != nil {
+				if !ipld.IsNotFound(err) {
+					// stored but unreadable: like GetBlock, do not ask the exchange for it
+					logger.Errorf("could not read block %s from the blockstore: %s", c, err)
+					continue
+				}
 				misses = append(misses, c)
 				continue
 			}
